@@ -348,6 +348,56 @@ def run(ctx: Ctx):
                 ctx.fail(cons + "#empty", g.loc(r), "a connection can be returned although the list "
                          "of usable peers is empty")
 
+    # ... and only then: every `raise NotRoutable` is decided by what the route table and the
+    # connections hold - its controlling test looks at a value taken from `self._peer_routes` /
+    # `self.connections` (directly or through locals).  A refusal decided on anything else - a
+    # readiness flag, a counter, a cache - refuses requests for which an eligible peer exists
+    # (Application.is_ready, e.g., follows the application's own peers, not the realm's default peers)
+    cons = "route_request:refusal-decided-by-route-table"
+    ctx.inst(cons)
+    tainted: set[str] = set()
+    srcs = ("self._peer_routes", "self.connections")
+    import re as _re
+    for _ in range(6):
+        for x in A.walk_no_nested(f.node):
+            tg, val = [], None
+            if isinstance(x, (ast.Assign, ast.AnnAssign)) and getattr(x, "value", None) is not None:
+                tg, val = A.store_targets(x), x.value
+            elif isinstance(x, (ast.For, ast.comprehension)):
+                tg, val = [x.target], x.iter
+            if val is None:
+                continue
+            txt = ast.unparse(val)
+            if any(s_ in txt for s_ in srcs) or any(_re.search(rf"\b{_re.escape(t_)}\b", txt) for t_ in tainted):
+                for t in tg:
+                    for nm in ast.walk(t):
+                        if isinstance(nm, ast.Name):
+                            tainted.add(nm.id)
+    par_nr = A.parents(f.node)
+    for x in A.walk_no_nested(f.node):
+        if not (isinstance(x, ast.Raise) and x.exc is not None and "NotRoutable" in ast.unparse(x.exc)):
+            continue
+        cur, tests = x, []
+        while cur in par_nr:
+            p_ = par_nr[cur]
+            if isinstance(p_, (ast.If, ast.While)) and cur is not p_.test:
+                tests.append(p_.test)
+            if isinstance(p_, ast.ExceptHandler):
+                tests.append(ast.Name(id="__handler__"))
+            cur = p_
+        if any(isinstance(t, ast.Name) and t.id == "__handler__" for t in tests[:1]):
+            continue        # conversion of a failure into NotRoutable
+        inner = tests[0] if tests else None
+        txt = ast.unparse(inner) if inner is not None else ""
+        if inner is None or not (any(s_ in txt for s_ in srcs)
+                                 or any(_re.search(rf"\b{_re.escape(t_)}\b", txt) for t_ in tainted)):
+            ctx.fail(cons, f.loc(x), f"route_request refuses a request on `{txt[:80] or 'no condition'}`, a "
+                     f"condition that does not look at the route table or the connections: NotRoutable is "
+                     f"raised although a configured (or default) peer of the realm has a ready connection, "
+                     f"and nothing is sent",
+                     expected="raise NotRoutable under a test of the peers / connections found in the tables",
+                     observed=txt[:120])
+
     # "when none exists the not-routable error is raised": nothing else escapes route_request
     from ..effects import effects_of
     E_ = effects_of(model)
